@@ -83,12 +83,21 @@ class DifferentialEvolutionHyperbandBracketManager(SynchronousHyperbandBracketMa
                     )
             else:
                 # For bracket with offset 0, the parent rung is the base
-                # rung in a bracket to the left
+                # rung in a bracket to the left, if there is a bracket whose
+                # base rung has this level. Otherwise (fewer brackets per
+                # iteration than rung levels), it is in the bracket just to
+                # the left, which has offset ``num_bracket_offsets - 1``
                 for rung_index, (_, level) in enumerate(rungs):
-                    parent_rung[(offset, level)] = (
-                        self.num_bracket_offsets - rung_index,
-                        0,
-                    )
+                    if rung_index < self.num_bracket_offsets:
+                        parent_rung[(offset, level)] = (
+                            self.num_bracket_offsets - rung_index,
+                            0,
+                        )
+                    else:
+                        parent_rung[(offset, level)] = (
+                            1,
+                            rung_index - self.num_bracket_offsets + 1,
+                        )
         return parent_rung
 
     def _create_new_bracket(self) -> int:
